@@ -26,7 +26,9 @@ def load_and_match(text, d):
         res = eng.match({'description': d, 'amount': 12.5})
     except Exception as e:  # noqa
         return {'load': 'ok', 'nrules': len(eng.rules), 'matched': None, 'match_raises': type(e).__name__ + ': ' + str(e)[:100]}
-    return {'load': 'ok', 'nrules': len(eng.rules), 'matched': bool(res.matched), 'category': res.category}
+    mr = getattr(res, 'matched_rule', None)
+    return {'load': 'ok', 'nrules': len(eng.rules), 'matched': bool(res.matched), 'category': res.category,
+            'matched_expr': getattr(mr, 'match_expr', None)}
 
 
 def given_category(text):
@@ -38,6 +40,19 @@ def given_category(text):
             line = 'subcategory: Coffee'
         out.append(line)
     return '\n'.join(out)
+
+
+ABSENT = ['QZXJV~NOT~THERE', 'WQ|KJX|ABSENT', 'ZZ9PLURAL']
+
+
+def existing_rules_with_same_name(name, d, how):
+    """A rules text a user may already have: a rule with the very name discover derives for d (possibly in
+    another letter case) whose match does not cover d."""
+    n2 = {'same': name, 'upper': name.upper(), 'lower': name.lower(), 'swap': name.swapcase()}[how]
+    absent = next((a for a in ABSENT if a.upper() not in d.upper()), None)
+    if absent is None:
+        return None
+    return '# rules written earlier\n[%s]\nmatch: contains("%s")\ncategory: Other\nsubcategory: Existing\n' % (n2, absent)
 
 
 def one(case):
@@ -59,6 +74,12 @@ def one(case):
     r.update({'pattern': pattern, 'name': name, 'needle': needle, 'rule': rule})
     r['raw'] = load_and_match(rule, d)
     r['cat'] = load_and_match(given_category(rule), d)
+    # the suggestion appended to a rules file that already has a same-named rule not covering d
+    ex = existing_rules_with_same_name(name, d, case.get('dup', 'same'))
+    if ex is not None:
+        text = ex + '\n' + given_category(rule) + '\n'
+        r['dup'] = dict(load_and_match(text, d), text=text, existing_alone=load_and_match(ex, d),
+                        suggested_expr=rule.split('\n')[1][len('match: '):] if rule.count('\n') >= 1 else None)
     return r
 
 
